@@ -44,3 +44,21 @@ Theorem c07_exact : forall cfg ss ip st m ms ss',
   length ms = total_adata (aSets m).
 Proof. exact c07_exact_l. Qed.
 Print Assumptions c07_exact.
+
+(* ---- over histories, and in wire order --------------------------------------------------------
+   For EVERY history h of datagrams from any exporters and EVERY further v9 / IPFIX datagram that decodes (with the
+   templates its exporter has sent so far) to the packet p: the messages handed to the transport are, in order, the
+   conversions of the data records of p in the order the sets and their records stand in the datagram -- the i-th
+   message is the i-th record -- each stamped with the packet-level columns; or none at all when a record fails to
+   convert.  Nothing is emitted for template, options or raw sets. *)
+From GF Require Import Spec.RefRate Proofs.RateP.
+Theorem c07_history_in_order : forall cfg h e tr d st' o ms ver d0 p tnf s1,
+  let st := nf_after cfg init_pstate h in
+  rd 2 d = Ok (ver, d0) -> (ver =? 5) = false -> (ver =? 9) || (ver =? 10) = true ->
+  decode_nf_body (tstores_get (psT st) (exp_id e)) ver d0 = Ok (p, tnf, s1) ->
+  nf_step cfg st e tr d = Ok (st', o, ms) ->
+  ms = [] \/
+  exists base up ms0 f,
+    Forall2 (fun r m => convert_nf cfg (pVer p) base up r = Ok m) (data_records (pSets p)) ms0 /\ ms = map f ms0.
+Proof. exact step_messages_in_order. Qed.
+Print Assumptions c07_history_in_order.
